@@ -889,15 +889,18 @@ MANIFEST = {
                   '(C09_step / C09_history): append_child (incremental cache patch), __setitem__ with an int and with a '
                   'simple slice (renumbering loops, detaching of replaced children), setters, memoising queries, unroll, '
                   'unroll_children, split_one_child, encapsulate, merge, cleanup (recursive), reverse_inplace (recursive; '
-                  'duration invariant under list reversal), roll_constant_waveforms, copies, == - inside the argument '
-                  'domain guard_C09_args: slice step None or 1, minimal_waveform_quanta >= 1.  Loop.__eq__ reads '
-                  'structure/counts/waveforms/measurements only.  NOT proved: extended slices (explicit step other '
-                  'than 1; C09_step_statement stays open for them), operations on nodes that dropped out of the program '
-                  '(C09_forest_statement) - both are modelled and checked step by step against the code (check_corr) '
-                  'and against the invariant evaluated on the real objects (check_spec).',
+                  'duration invariant under list reversal), roll_constant_waveforms, copies, ==; every slice form incl. '
+                  'extended slices with any step - inside the argument domain guard_C09_args: minimal_waveform_quanta >= 1.  '
+                  'Loop.__eq__ reads structure/counts/waveforms/measurements only and answers true exactly for '
+                  'structurally equal subtrees.  Fuel: depth < heap size proved, the fueled primitives are total, histories '
+                  'over setters/queries need no assumption.  NOT proved: absence of fuel/dangling outcomes for the '
+                  'structural operations (C09_history_total_statement; hypothesis run_ok), operations on nodes that dropped '
+                  'out of the program (C09_forest_statement) - modelled and checked step by step against the code '
+                  '(check_corr) and against the invariant evaluated on the real objects (check_spec).',
     'level_note': 'Trusted: Coq kernel + vm_compute; the hand-written model (tied to /repo by correspondence only, no '
                   'translator); abstract waveforms; parent weak references as plain ids (objects kept alive); inserted '
-                  'values are fresh objects; fuel exhaustion / dangling ids excluded by hypothesis, not proved impossible; '
+                  'values are fresh objects; fuel exhaustion / dangling ids excluded by hypothesis for the structural '
+                  'operations (proved impossible for the primitives, setters and queries); '
                   'Prop-level Inv and the boolean check_spec are the same clauses by inspection only; for '
                   'minimal_waveform_quanta <= 0 the model does not follow the code; harness observation code.',
     'technique': 'Coq proof over a heap model + step-by-step correspondence check on operation histories',
